@@ -104,6 +104,25 @@ def replay_fault(req, tmp):
         return dict(reproduced=False, detail='open raised %s' % type(e).__name__)
     r._verif_stored = tuple(C.stored)
     plan.active = True
+    if req.get('faulted_first_call'):
+        a0 = [m_['f_' + n] for n in m.argn]
+        try:
+            quiet(m.call, r, a0)
+            first = 'returned'
+        except Exception as e:
+            first = 'raised %s' % type(e).__name__
+        plan.active = False
+        call = '%s after a first call %s%s that %s under %s' % (C.call, req['method'], tuple(a0), first, what)
+        try:
+            res = quiet(m.call, r, args)
+        except Exception as e:
+            return dict(reproduced=True, detail='%s: the fault-free second call raised %s' % (call, type(e).__name__), extra=dict(outcome='second-call-raised'))
+        finally:
+            f.close()
+        bad = compare_result(C, res, req)
+        if bad is not None:
+            return dict(reproduced=True, detail='%s: the fault-free second call returned wrong data: %s' % (call, bad[1]), extra=dict(outcome='wrong-data'))
+        return dict(reproduced=False, detail='%s: second call correct' % call)
     try:
         res = quiet(m.call, r, args)
     except Exception as e:
